@@ -1122,7 +1122,12 @@ impl<'a> Walk<'a> {
             hir::Expr::EFloat64 { .. } => self.bad("EFloat64"),
             hir::Expr::EConstr { .. } => self.bad("EConstr"),
             hir::Expr::EStructLiteral { .. } => self.bad("EStructLiteral"),
-            hir::Expr::EArray { .. } => self.bad("EArray"),
+            hir::Expr::EArray { items } => {
+                self.kind("array");
+                let mut v = vec![n(i)];
+                v.extend(items.iter().map(|e| self.expr(*e)));
+                tagged("array", v)
+            }
             hir::Expr::EGo { .. } => self.bad("EGo"),
             hir::Expr::ETuple { items } => {
                 self.kind("tuple");
@@ -1180,7 +1185,32 @@ impl<'a> Walk<'a> {
             hir::Expr::ECall { func, args } => {
                 self.kind("call");
                 match self.table.expr(func) {
-                    hir::Expr::EStaticMember { .. } => return self.bad("call-of-EStaticMember"),
+                    hir::Expr::EStaticMember { path, .. } => {
+                        // `T::m(args)` with `T` a type of this package (not a trait, not qualified): the inherent branch
+                        let ns = path.namespace_segments();
+                        let Some(member) = path.last_ident().cloned() else { return self.bad("call-of-EStaticMember") };
+                        if path.len() != 2 || ns.len() != 1 {
+                            return self.bad("call-of-EStaticMember-qualified");
+                        }
+                        let tn = ns[0].seg().clone();
+                        if tn.contains("::") || self.genv.current().trait_env.trait_defs.contains_key(&tn) {
+                            return self.bad("call-of-EStaticMember-trait");
+                        }
+                        self.kind("call_static_inherent");
+                        self.ids.push(func);
+                        let mut v = vec![n(i), n(func.idx), a(&tn), a(&member)];
+                        v.extend(args.iter().map(|e| self.expr(*e)));
+                        return tagged("scall", v);
+                    }
+                    hir::Expr::EField { expr: recv, field } => {
+                        self.kind("call_method");
+                        self.ids.push(func);
+                        let recv = *recv;
+                        let name = field.to_ident_name();
+                        let mut v = vec![n(i), n(func.idx), self.expr(recv), a(&name)];
+                        v.extend(args.iter().map(|e| self.expr(*e)));
+                        return tagged("mcall", v);
+                    }
                     hir::Expr::ENameRef { res: hir::NameRef::Def(_), hint, .. } => {
                         if let Some(Ty::TFunc { params, .. }) = self.genv.current().get_type_of_function(hint) {
                             let mut has_param = false;
@@ -1244,6 +1274,20 @@ impl<'a> Walk<'a> {
             }
         }
     }
+}
+
+/// `trait_env.inherent_impls`, one row per method, in the map's own order (`lookup_inherent_method` reads it by key)
+fn inherent_s(genv: &PackageTypeEnv) -> S {
+    let mut rows = Vec::new();
+    for (key, def) in genv.current().trait_env.inherent_impls.iter() {
+        for (m, sch) in def.methods.iter() {
+            rows.push(match key {
+                compiler::env::InherentImplKey::Exact(t) => tagged("exact", vec![dump::ty(t), a(m), dump::ty(&sch.ty)]),
+                compiler::env::InherentImplKey::Constr(c) => tagged("constr", vec![a(c), a(m), dump::ty(&sch.ty)]),
+            });
+        }
+    }
+    tagged("inherent", rows)
 }
 
 fn structs_s(genv: &PackageTypeEnv) -> S {
@@ -1412,6 +1456,12 @@ fn observe(col: &Rc<RefCell<Vec<FnRec>>>, genv: &PackageTypeEnv, typer: &mut Typ
                 tagged("ret", vec![ret]),
                 tagged("funs", funs),
                 tagged("env", vec![structs_s(genv), tagged("impls", vec![])]),
+                inherent_s(genv),
+                tagged("enums", {
+                    let mut e: Vec<String> = genv.current().enums().keys().map(|k| k.0.clone()).collect();
+                    e.sort();
+                    e.into_iter().map(|x| a(&x)).collect()
+                }),
                 tagged("body", vec![body]),
             ],
         ));
@@ -1623,6 +1673,46 @@ pub fn main(args: &util::Args) {
             if fin.is_none() {
                 cov.inc("fns_nofinal");
             }
+        }
+    }
+    // ---- the REAL corpus: every top-level function of package Main of every corpus program, through the same observer
+    for (k, dir) in util::corpus_pipeline_dirs().iter().enumerate() {
+        let path = dir.join("main.gom");
+        let Ok(src) = std::fs::read_to_string(&path) else { continue };
+        let col: Rc<RefCell<Vec<FnRec>>> = Rc::new(RefCell::new(Vec::new()));
+        let col2 = col.clone();
+        compiler::typer::verif_set_fn_observer(Some(Box::new(move |genv: &PackageTypeEnv, typer: &mut Typer, diags: &Diagnostics, f: &hir::Fn, phase: u8| {
+            observe(&col2, genv, typer, diags, f, phase)
+        })));
+        let r = catch_unwind(AssertUnwindSafe(|| compiler::pipeline::pipeline::typecheck_with_packages_and_results(&path, &src)));
+        compiler::typer::verif_set_fn_observer(None);
+        let (fin, verdict) = match r {
+            Ok(Ok((_table, results, _genv, diags))) => {
+                let rejected = diags.iter().any(|d| d.severity() == diagnostics::Severity::Error);
+                (Some(results), if rejected { "typer" } else { "accepted" })
+            }
+            Ok(Err(_)) => (None, "error"),
+            Err(_) => (None, "panic"),
+        };
+        let name = dir.file_name().map(|x| x.to_string_lossy().to_string()).unwrap_or_default();
+        out.push_str(&format!("K{}\tPROG\t{}\t{}\tcorpus\t\n", k, esc_line(&format!("corpus program {} ({})", name, path.display())), verdict));
+        cov.inc("corpus_programs");
+        let recs = col.borrow();
+        for rec in recs.iter() {
+            let id = format!("K{}.{}", k, rec.name);
+            cov.inc("corpus_functions");
+            if let Some(kind) = &rec.skip {
+                out.push_str(&format!("{}\tSKIP\t{}\n", id, kind));
+                cov.inc("corpus_functions_outside");
+                cov.inc(&format!("corpus_outside_{}", kind.replace('-', "_")));
+                continue;
+            }
+            let Some(input) = &rec.input else { continue };
+            if rec.phase != 2 {
+                continue;
+            }
+            out.push_str(&format!("{}\tINF\t{}\t{}\n", id, input.to_text(), result_s(rec, fin.as_ref()).to_text()));
+            cov.inc("corpus_functions_inside");
         }
     }
     let _ = std::fs::remove_dir_all(&scratch);
